@@ -802,11 +802,15 @@ mod pattern_impl {
     pub struct RegexSearcher<'r, 't> {
         haystack: &'t str,
         regex: &'r Regex,
-        current_pos: usize,
-        done: bool,
-        // For reverse searching
-        reverse_pos: usize,
-        reverse_done: bool,
+        // Forward searching: everything before `covered` has been reported.
+        covered: usize,
+        // Where the next search starts, or None once no further match can exist.
+        search_from: Option<usize>,
+        // A match that has been found but not reported yet (the Reject for the gap before it goes first).
+        pending: Option<(usize, usize)>,
+        // Reverse searching: the forward steps of the whole haystack, handed out from the back.
+        // Computed on the first call of next_back.
+        reverse_steps: Option<Vec<SearchStep>>,
     }
 
     impl<'r, 't> RegexSearcher<'r, 't> {
@@ -814,24 +818,11 @@ mod pattern_impl {
             Self {
                 haystack,
                 regex,
-                current_pos: 0,
-                done: false,
-                reverse_pos: haystack.len(),
-                reverse_done: false,
+                covered: 0,
+                search_from: Some(0),
+                pending: None,
+                reverse_steps: None,
             }
-        }
-
-        fn find_last_match_before(&self, pos: usize) -> Option<super::Match> {
-            // Find all matches up to the given position and return the last one
-            let mut last_match = None;
-            for m in self.regex.find_from(self.haystack, 0) {
-                if m.end() <= pos {
-                    last_match = Some(m);
-                } else {
-                    break;
-                }
-            }
-            last_match
         }
     }
 
@@ -840,113 +831,74 @@ mod pattern_impl {
             self.haystack
         }
 
+        // The steps tile the haystack: every Reject and Match starts where the previous step
+        // ended, and the Match steps are exactly the matches of `find_iter` (an empty match is
+        // followed by the Reject of the character the search cursor skips).
         fn next(&mut self) -> SearchStep {
-            if self.done {
-                return SearchStep::Done;
-            }
-
-            // Try to find the next match starting from current position
-            if let Some(m) = self.regex.find_from(self.haystack, self.current_pos).next() {
-                let match_start = m.start();
-                let match_end = m.end();
-
-                // Handle any gap between current position and match start
-                if self.current_pos < match_start {
-                    let reject_end = match_start;
-                    let reject_start = self.current_pos;
-                    self.current_pos = match_start;
-                    return SearchStep::Reject(reject_start, reject_end);
+            let len = self.haystack.len();
+            loop {
+                if let Some((start, end)) = self.pending.take() {
+                    debug_assert!(start == self.covered);
+                    self.covered = end;
+                    return SearchStep::Match(start, end);
                 }
-
-                // Return the match
-                self.current_pos = match_end;
-
-                // Handle zero-width matches to avoid infinite loops
-                if match_start == match_end {
-                    // For zero-width matches, we need to advance at least one byte
-                    // to avoid infinite loops
-                    if match_end < self.haystack.len() {
-                        // Find the next character boundary
-                        let mut next_pos = match_end + 1;
-                        while next_pos < self.haystack.len()
-                            && !self.haystack.is_char_boundary(next_pos)
-                        {
-                            next_pos += 1;
-                        }
-                        self.current_pos = next_pos;
-                    } else {
-                        // We're at the end of the string
-                        self.done = true;
+                let Some(from) = self.search_from else {
+                    // No more matches: reject whatever is left, then we are done.
+                    if self.covered < len {
+                        let start = self.covered;
+                        self.covered = len;
+                        return SearchStep::Reject(start, len);
                     }
-                }
-
-                SearchStep::Match(match_start, match_end)
-            } else {
-                // No more matches, reject remaining text if any
-                if self.current_pos < self.haystack.len() {
-                    let reject_start = self.current_pos;
-                    let reject_end = self.haystack.len();
-                    self.current_pos = self.haystack.len();
-                    self.done = true;
-                    SearchStep::Reject(reject_start, reject_end)
+                    return SearchStep::Done;
+                };
+                let Some(m) = self.regex.find_from(self.haystack, from).next() else {
+                    self.search_from = None;
+                    continue;
+                };
+                let (start, end) = (m.start(), m.end());
+                // Same cursor rule as the match iterator: continue at the end of a non-empty
+                // match, one character past an empty one.
+                self.search_from = if end > start {
+                    Some(end)
+                } else if end < len {
+                    let mut next = end + 1;
+                    while !self.haystack.is_char_boundary(next) {
+                        next += 1;
+                    }
+                    Some(next)
                 } else {
-                    self.done = true;
-                    SearchStep::Done
+                    None
+                };
+                if start > self.covered {
+                    let reject_start = self.covered;
+                    self.covered = start;
+                    self.pending = Some((start, end));
+                    return SearchStep::Reject(reject_start, start);
                 }
+                self.covered = end;
+                return SearchStep::Match(start, end);
             }
         }
     }
 
     unsafe impl<'r, 't> ReverseSearcher<'t> for RegexSearcher<'r, 't> {
+        // The reverse steps are the forward steps of the whole haystack in reverse order, so they
+        // tile the haystack from its end down to 0 and report the same matches.
         fn next_back(&mut self) -> SearchStep {
-            if self.reverse_done {
-                return SearchStep::Done;
-            }
-
-            // Try to find the last match before current reverse position
-            if let Some(m) = self.find_last_match_before(self.reverse_pos) {
-                let match_start = m.start();
-                let match_end = m.end();
-
-                // Handle any gap between match end and current reverse position
-                if match_end < self.reverse_pos {
-                    let reject_start = match_end;
-                    let reject_end = self.reverse_pos;
-                    self.reverse_pos = match_end;
-                    return SearchStep::Reject(reject_start, reject_end);
-                }
-
-                // Return the match
-                self.reverse_pos = match_start;
-
-                // Handle zero-width matches
-                if match_start == match_end {
-                    // For zero-width matches, move back by one character
-                    if match_start > 0 {
-                        let mut prev_pos = match_start - 1;
-                        while prev_pos > 0 && !self.haystack.is_char_boundary(prev_pos) {
-                            prev_pos -= 1;
-                        }
-                        self.reverse_pos = prev_pos;
-                    } else {
-                        // We're at the beginning of the string
-                        self.reverse_done = true;
+            if self.reverse_steps.is_none() {
+                let mut forward = RegexSearcher::new(self.regex, self.haystack);
+                let mut steps = Vec::new();
+                loop {
+                    match forward.next() {
+                        SearchStep::Done => break,
+                        step => steps.push(step),
                     }
                 }
-
-                SearchStep::Match(match_start, match_end)
-            } else {
-                // No more matches, reject remaining text if any
-                if self.reverse_pos > 0 {
-                    let reject_start = 0;
-                    let reject_end = self.reverse_pos;
-                    self.reverse_pos = 0;
-                    self.reverse_done = true;
-                    SearchStep::Reject(reject_start, reject_end)
-                } else {
-                    self.reverse_done = true;
-                    SearchStep::Done
-                }
+                self.reverse_steps = Some(steps);
+            }
+            match self.reverse_steps.as_mut().and_then(|steps| steps.pop()) {
+                Some(step) => step,
+                None => SearchStep::Done,
             }
         }
     }
